@@ -80,6 +80,10 @@ type killWorkload struct {
 	CS      uint32
 	Streams int
 	Hits    map[string]int // dry-run hit counts per site
+	// GapOnly: used only by the "host restarted with another chunk size"
+	// family (two many-chunk files, three streams, so that a stalled stream
+	// leaves a gap in the persisted bitmap)
+	GapOnly bool
 }
 
 func killWorkloads(e *Env) []*killWorkload {
@@ -91,6 +95,9 @@ func killWorkloads(e *Env) []*killWorkload {
 		mk("k3files", 64, 2, vk.Entry{Rel: "a.bin", Size: 640}, vk.Entry{Rel: "b.bin", Size: 200}, vk.Entry{Rel: "sub/c.bin", Size: 64*12 + 5}),
 		mk("k5small", 64, 3, vk.Entry{Rel: "f0", Size: 64}, vk.Entry{Rel: "f1", Size: 130}, vk.Entry{Rel: "f2", Size: 0}, vk.Entry{Rel: "f3", Size: 500}, vk.Entry{Rel: "f4", Size: 65}),
 	}
+	g := mk("kgap", 64, 3, vk.Entry{Rel: "g0.bin", Size: 64*24 + 17}, vk.Entry{Rel: "g1.bin", Size: 64*24 + 60})
+	g.GapOnly = true
+	w = append(w, g)
 	if e.Thorough() {
 		w = append(w,
 			mk("k1big", 4096, 1, vk.Entry{Rel: "big.bin", Size: 4096*30 + 100}),
@@ -105,14 +112,28 @@ var killSites = []string{"recv.chunk.afterWrite", "recv.chunk.afterMark", "sidec
 type killStep struct {
 	Site   string `json:"site"`
 	K      int    `json:"k"`
-	Action string `json:"action"` // kill | delaykill | sender-abort
-	Slow   int    `json:"slow_ms"`  // sleep per marked chunk so that the 1 s flusher produces intermediate sidecars
+	Action string `json:"action"`  // kill | delaykill | sender-abort
+	Slow   int    `json:"slow_ms"` // sleep per marked chunk so that the 1 s flusher produces intermediate sidecars
+	// CS: chunk size the sender uses in this run (0 = the workload's). The
+	// receiver takes the chunk size from FileBegin, so this models a host that
+	// was restarted with another --chunk-size between the runs.
+	CS uint32 `json:"cs,omitempty"`
+	// StallAt > 0: the sender's first data stream stalls for 2.5 s just before
+	// byte StallAt (the other streams go on), so that the bitmap persisted by
+	// the 1 s flusher has a gap instead of being a plain prefix.
+	StallAt int64 `json:"stall_at,omitempty"`
+	// Pre: what happens to the output directory between the previous run and
+	// this one: "" | "delete-data" | "shorten-data" (the data files that have a
+	// sidecar are removed / cut to half; the resume metadata stays)
+	Pre string `json:"pre,omitempty"`
 }
 
 type killCase struct {
 	ID    string     `json:"id"`
 	W     string     `json:"workload"`
 	Steps []killStep `json:"steps"` // chain of interrupted runs, then a final clean resume
+	// FinalCS: chunk size of the final clean resume (0 = the workload's)
+	FinalCS uint32 `json:"final_cs,omitempty"`
 }
 
 // senderRun dials the child at port and runs the real sender; when the child
@@ -122,7 +143,7 @@ type senderRun struct {
 	CtrlRecv []byte // receiver->sender control bytes
 }
 
-func runSenderAgainst(ctx context.Context, port int, w *killWorkload, src string, childDead <-chan struct{}, abortAt int64) senderRun {
+func runSenderAgainst(ctx context.Context, port int, w *killWorkload, src string, childDead <-chan struct{}, abortAt, stallAt int64) senderRun {
 	var out senderRun
 	udp, err := net.ListenUDP("udp4", &net.UDPAddr{IP: net.IPv4(127, 0, 0, 1)})
 	if err != nil {
@@ -156,6 +177,14 @@ func runSenderAgainst(ctx context.Context, port int, w *killWorkload, src string
 	if abortAt > 0 {
 		deco.Fault = &vk.Fault{Stream: 1, Dir: "w", Offset: abortAt, Kind: "abort"}
 		deco.Action = func(string) { _ = raw.CloseWithError(1, "abort") }
+	} else if stallAt > 0 {
+		deco.Fault = &vk.Fault{Stream: 1, Dir: "w", Offset: stallAt, Kind: "stall"}
+		deco.Action = func(string) {
+			select {
+			case <-time.After(2500 * time.Millisecond):
+			case <-childDead:
+			}
+		}
 	}
 	sctx, scancel := context.WithCancel(ctx)
 	defer scancel()
@@ -218,7 +247,11 @@ func parseHookLog(path string) []hookLine {
 }
 
 // runInterrupted runs one receiver child (with the hook spec) against the sender.
-func runInterrupted(e *Env, w *killWorkload, src, outDir, hookSpec string, abortAt int64) (childResult, senderRun) {
+func runInterrupted(e *Env, w *killWorkload, src, outDir, hookSpec string, abortAt int64, opt ...int64) (childResult, senderRun) {
+	stallAt := int64(0)
+	if len(opt) > 0 {
+		stallAt = opt[0]
+	}
 	var cr childResult
 	logPath := filepath.Join(filepath.Dir(outDir), fmt.Sprintf("hook-%d.log", time.Now().UnixNano()))
 	cmd := exec.Command(os.Args[0], "recv-child", outDir, strconv.Itoa(w.Streams))
@@ -248,7 +281,7 @@ func runInterrupted(e *Env, w *killWorkload, src, outDir, hookSpec string, abort
 	select {
 	case port := <-portCh:
 		ctx, cancel := context.WithTimeout(context.Background(), 40*time.Second)
-		sr = runSenderAgainst(ctx, port, w, src, dead, abortAt)
+		sr = runSenderAgainst(ctx, port, w, src, dead, abortAt, stallAt)
 		cancel()
 	case <-dead:
 		cr.PortErr = "child exited before printing its port: " + stderr.String()
@@ -281,6 +314,7 @@ func runInterrupted(e *Env, w *killWorkload, src, outDir, hookSpec string, abort
 type sidecarSnapshot struct {
 	FileID string
 	Total  uint32
+	CS     uint32
 	Bits   []bool
 	Path   string
 }
@@ -302,7 +336,7 @@ func snapshotSidecars(outDir string) (loaded []sidecarSnapshot, unloadable []str
 			unloadable = append(unloadable, en.Name()+": "+err.Error())
 			continue
 		}
-		s := sidecarSnapshot{FileID: sc.FileID, Total: sc.TotalChunks, Path: p}
+		s := sidecarSnapshot{FileID: sc.FileID, Total: sc.TotalChunks, CS: sc.ChunkSize, Path: p}
 		for i := uint32(0); i < sc.TotalChunks; i++ {
 			s.Bits = append(s.Bits, sc.IsComplete(i))
 		}
@@ -381,6 +415,9 @@ func runKillEngine(e *Env, c04, c05 bool) {
 	}
 	kstep := e.Pick(2, 1)
 	for _, w := range wls {
+		if w.GapOnly {
+			continue
+		}
 		for _, site := range killSites {
 			n := w.Hits[site]
 			chunkSite := strings.HasPrefix(site, "recv.chunk")
@@ -415,6 +452,36 @@ func runKillEngine(e *Env, c04, c05 bool) {
 			}
 			add(w.Name, steps...)
 		}
+		// the data file disappears or shrinks under a persisted sidecar between
+		// the runs; the next run is killed right after its first chunk
+		for _, pre := range []string{"delete-data", "shorten-data"} {
+			for k := 2; k <= e.Pick(4, 8); k += 2 {
+				add(w.Name, killStep{Site: "recv.chunk.afterMark", K: k, Action: "delaykill", Slow: 45},
+					killStep{Site: "recv.chunk.afterWrite", K: 1, Action: "kill", Pre: pre})
+			}
+		}
+	}
+	for _, w := range wls {
+		if !w.GapOnly {
+			continue
+		}
+		// host restarted with another chunk size between the runs: the first run
+		// is killed while one data stream is stalled (so the persisted bitmap has
+		// a gap), the next run uses a chunk size that keeps the chunk count of
+		// some files (smaller / larger) or changes it
+		frame := int64(20 + w.CS)
+		stalls := []int64{10, 2*frame + 10}
+		if e.Thorough() {
+			stalls = append(stalls, frame+10, 4*frame+10)
+		}
+		for _, alt := range altChunkSizes(w) {
+			for _, st := range stalls {
+				gap := killStep{Site: "recv.chunk.afterMark", K: 8, Action: "delaykill", Slow: 45, StallAt: st}
+				cases = append(cases, killCase{ID: fmt.Sprintf("%s-%05d", prop, len(cases)), W: w.Name, Steps: []killStep{gap}, FinalCS: alt})
+				cases = append(cases, killCase{ID: fmt.Sprintf("%s-%05d", prop, len(cases)), W: w.Name, FinalCS: alt,
+					Steps: []killStep{gap, {Site: "recv.chunk.afterMark", K: 1, Action: "delaykill", CS: alt}}})
+			}
+		}
 	}
 	e.R.SetExtra("cases_generated", len(cases))
 
@@ -431,6 +498,7 @@ func runKillEngine(e *Env, c04, c05 bool) {
 		e.R.Eval()
 		expected := vk.ExpectedDigest(w.Tree, "srcroot/")
 		var lastSnap []sidecarSnapshot
+		lastSnapCS := w.CS
 		died := 0
 		for si, st := range c.Steps {
 			spec := ""
@@ -447,7 +515,35 @@ func runKillEngine(e *Env, c04, c05 bool) {
 				spec += "x=log"
 				abortAt = int64(st.K)
 			}
-			cr, _ := runInterrupted(e, w, src, outDir, spec, abortAt)
+			ws := *w
+			if st.CS > 0 {
+				ws.CS = st.CS
+			}
+			if st.Pre != "" {
+				mm, _ := manifest.ScanPaths([]string{src})
+				n := 0
+				for _, sn := range lastSnap {
+					for _, it := range mm.Items {
+						if it.ID != sn.FileID {
+							continue
+						}
+						dp := filepath.Join(outDir, filepath.FromSlash(it.RelPath))
+						if st.Pre == "delete-data" {
+							if os.Remove(dp) == nil {
+								n++
+							}
+						} else if os.Truncate(dp, it.Size/2) == nil {
+							n++
+						}
+					}
+				}
+				if n == 0 {
+					e.R.Count("pre_step_found_no_data_file_with_sidecar")
+					return
+				}
+				e.R.Count("data_files_removed_or_cut_under_a_sidecar")
+			}
+			cr, _ := runInterrupted(e, &ws, src, outDir, spec, abortAt, st.StallAt)
 			if cr.PortErr != "" {
 				e.R.Inconcl(c.ID + ": " + cr.PortErr)
 				return
@@ -478,6 +574,25 @@ func runKillEngine(e *Env, c04, c05 bool) {
 			// ---- C05: inspect the state found on disk
 			loaded, unloadable, _ := snapshotSidecars(outDir)
 			lastSnap = loaded
+			lastSnapCS = ws.CS
+			if st.StallAt > 0 {
+				gap := false
+				for _, sn := range loaded {
+					seenZero := false
+					for _, b := range sn.Bits {
+						if !b {
+							seenZero = true
+						} else if seenZero {
+							gap = true
+						}
+					}
+				}
+				if gap {
+					e.R.Count("gap_bitmaps_persisted_by_stalled_runs")
+				} else {
+					e.R.Count("stalled_runs_without_gap_bitmap")
+				}
+			}
 			if c05 {
 				for _, u := range unloadable {
 					// an unreadable sidecar is ignored by the tool; only a violation if a previous valid version must exist
@@ -510,14 +625,30 @@ func runKillEngine(e *Env, c04, c05 bool) {
 				for _, it := range m.Items {
 					byID[it.ID] = it
 				}
+				begun := map[uint64]bool{}
+				for _, h := range cr.HookLog {
+					if h.Name == "recv.begin.handled" {
+						begun[h.A] = true
+					}
+				}
 				for _, sn := range loaded {
 					it, ok := byID[sn.FileID]
 					if !ok {
 						continue
 					}
+					if st.Pre != "" && !begun[transfer.VerifCoreFileKey(it)] {
+						// the harness removed the data under this sidecar and the
+						// killed run had not reached the file yet: the stale pair
+						// is the harness's doing, not a state the receiver wrote
+						e.R.Count("stale_pairs_of_files_not_begun_skipped")
+						continue
+					}
 					sc, err := transfer.LoadSidecar(sn.Path)
 					if err != nil {
 						continue
+					}
+					if st.Pre != "" {
+						e.R.Count("sidecars_of_begun_files_compared_after_data_removal")
 					}
 					nm := 0
 					for _, b := range sn.Bits {
@@ -531,7 +662,14 @@ func runKillEngine(e *Env, c04, c05 bool) {
 					compared++
 					mu.Unlock()
 					if v != "" {
-						e.R.Violate("marked-chunk-differs:after-kill:"+st.Site, fmt.Sprintf("after %s@%d (%s): %s", st.Site, st.K, st.Action, v), c, map[string]any{"step": si})
+						key := "marked-chunk-differs:after-kill:" + st.Site
+						if st.CS > 0 {
+							key += ":after-chunk-size-change"
+						}
+						if st.Pre != "" {
+							key += ":after-" + st.Pre
+						}
+						e.R.Violate(key, fmt.Sprintf("after %s@%d (%s, chunk size %d): %s", st.Site, st.K, st.Action, ws.CS, v), c, map[string]any{"step": si})
 					}
 				}
 			}
@@ -541,7 +679,11 @@ func runKillEngine(e *Env, c04, c05 bool) {
 			return
 		}
 		// ---- final clean resume (in a child without kill action)
-		cr, sr := runInterrupted(e, w, src, outDir, "x=log", 0)
+		wf := *w
+		if c.FinalCS > 0 {
+			wf.CS = c.FinalCS
+		}
+		cr, sr := runInterrupted(e, &wf, src, outDir, "x=log", 0)
 		if cr.PortErr != "" {
 			e.R.Inconcl(c.ID + ": final run: " + cr.PortErr)
 			return
@@ -564,7 +706,23 @@ func runKillEngine(e *Env, c04, c05 bool) {
 			}
 			// advertised bitmap must contain every bit the on-disk sidecar had after the last kill
 			infos := decodeResumeInfos(sr.CtrlRecv)
+			if wf.CS != lastSnapCS || wf.CS != w.CS {
+				e.R.Count("resumed_ok_after_chunk_size_change")
+			}
+			for _, st := range c.Steps {
+				if st.Pre != "" {
+					// data was removed under the sidecars by the harness: which
+					// bits survive is C06's subject, not "finished work"
+					lastSnap = nil
+				}
+			}
 			for _, sn := range lastSnap {
+				if sn.CS != wf.CS {
+					// recorded for another chunk size: the bits describe other
+					// byte ranges and are rightly not advertised
+					e.R.Count("sidecars_of_other_chunk_size_not_compared")
+					continue
+				}
 				ris := infos[sn.FileID]
 				if len(ris) == 0 {
 					// the file may have been complete already and not begun again? every file is begun on every run
@@ -598,9 +756,12 @@ func runKillEngine(e *Env, c04, c05 bool) {
 		// second monitor: in-process invariant under load (multi-stream and legacy receiver)
 		runC05InProcess(e)
 		runC05FlushTorture(e)
+		e.R.Require(e.R.Counter("sidecars_of_begun_files_compared_after_data_removal") >= e.Pick(2, 6), fmt.Sprintf("only %d sidecars compared after the data file was removed under them", e.R.Counter("sidecars_of_begun_files_compared_after_data_removal")))
 		e.R.Require(compared >= e.Pick(10, 100), fmt.Sprintf("only %d loadable sidecars compared after kills", compared))
 	}
+	e.R.Require(e.R.Counter("gap_bitmaps_persisted_by_stalled_runs") >= e.Pick(6, 20), fmt.Sprintf("only %d stalled runs left a bitmap with a gap", e.R.Counter("gap_bitmaps_persisted_by_stalled_runs")))
 	if c04 {
+		e.R.Require(e.R.Counter("resumed_ok_after_chunk_size_change") >= e.Pick(6, 20), fmt.Sprintf("only %d resumes with a changed chunk size judged", e.R.Counter("resumed_ok_after_chunk_size_change")))
 		e.R.Require(e.R.Counter("resumed_ok") >= e.Pick(60, 400), fmt.Sprintf("only %d resumed runs judged", e.R.Counter("resumed_ok")))
 	}
 }
@@ -616,9 +777,65 @@ func lastLine(s string) string {
 func chainKey(c killCase) string {
 	var parts []string
 	for _, s := range c.Steps {
-		parts = append(parts, fmt.Sprintf("%s@%d:%s", s.Site, s.K, s.Action))
+		p := fmt.Sprintf("%s@%d:%s", s.Site, s.K, s.Action)
+		if s.StallAt > 0 {
+			p += fmt.Sprintf(":stall%d", s.StallAt)
+		}
+		if s.CS > 0 {
+			p += fmt.Sprintf(":cs%d", s.CS)
+		}
+		if s.Pre != "" {
+			p = s.Pre + ">" + p
+		}
+		parts = append(parts, p)
+	}
+	if c.FinalCS > 0 {
+		parts = append(parts, fmt.Sprintf("final:cs%d", c.FinalCS))
 	}
 	return strings.Join(parts, "+")
+}
+
+// rechunked reports whether any run of the case uses another chunk size than
+// the workload's first run.
+func rechunked(c killCase) bool {
+	for _, s := range c.Steps {
+		if s.CS > 0 {
+			return true
+		}
+	}
+	return c.FinalCS > 0
+}
+
+// altChunkSizes returns chunk sizes other than the workload's for the later
+// runs of a case: the nearest smaller and the nearest larger size that keep the
+// chunk count of at least one file with three or more chunks (the sidecar
+// identity check must tell them apart by size, not by count), and one that
+// changes every count.
+func altChunkSizes(w *killWorkload) []uint32 {
+	count := func(size int64, cs uint32) int64 { return (size + int64(cs) - 1) / int64(cs) }
+	keeps := func(cs uint32) int {
+		n := 0
+		for _, en := range w.Tree.Entries {
+			if !en.Dir && count(en.Size, w.CS) >= 3 && count(en.Size, cs) == count(en.Size, w.CS) {
+				n++
+			}
+		}
+		return n
+	}
+	var out []uint32
+	for c := w.CS - 1; c > w.CS/2 && c > 0; c-- {
+		if keeps(c) > 0 {
+			out = append(out, c)
+			break
+		}
+	}
+	for c := w.CS + 1; c < 2*w.CS; c++ {
+		if keeps(c) > 0 {
+			out = append(out, c)
+			break
+		}
+	}
+	return append(out, w.CS*2)
 }
 
 func siteClass(c killCase) string {
@@ -631,10 +848,20 @@ func siteClass(c killCase) string {
 		k = append(k, s)
 	}
 	sort.Strings(k)
-	if len(c.Steps) > 1 {
-		return "chain:" + strings.Join(k, "+")
+	pre := ""
+	if rechunked(c) {
+		pre = "rechunk:"
 	}
-	return strings.Join(k, "+")
+	for _, s := range c.Steps {
+		if s.Pre != "" {
+			pre = s.Pre + ":" + pre
+			break
+		}
+	}
+	if len(c.Steps) > 1 {
+		return pre + "chain:" + strings.Join(k, "+")
+	}
+	return pre + strings.Join(k, "+")
 }
 
 // runC05InProcess drives many in-process resumed transfers with jitter at the
@@ -708,7 +935,6 @@ func runC05InProcess(e *Env) {
 	e.R.Require(inv.checks.Load() >= int64(e.Pick(200, 3000)), fmt.Sprintf("in-process monitor saw only %d sidecar flushes", inv.checks.Load()))
 	_ = json.Marshal
 }
-
 
 // runC05FlushTorture observes the disk at arbitrary instants while several
 // goroutines mark chunks of one large sidecar and flush it concurrently (what
